@@ -180,9 +180,22 @@ Proof.
   unfold tp. replace (o + (T - o + (off + 4))) with (T + 4 + off) by ring.
   rewrite <- Hlen. unfold lenZ. rewrite Nat2Z.id. rewrite (mem_has_rdbytes _ _ _ Hd). reflexivity.
 Qed.
+(* the one-byte union type field *)
+Lemma ctx_type_byte id code off :
+  In (AInline id 1 1 [code], off) placed ->
+  field_pos m o ds vt vsize tp tsize id 1 1 = Some (Some (tp + (off + 4))) /\ m (o + (tp + (off + 4))) = Some code.
+Proof.
+  intros Hin. pose proof (ctx_field_pos_present _ _ Hin) as Hp. cbn [farg_id farg_size farg_align] in Hp. split; [exact Hp|].
+  pose proof (Hdata _ _ Hin) as Hd. rewrite (payload_inline id 1 1 [code] base off eq_refl) in Hd.
+  unfold tp. replace (o + (T - o + (off + 4))) with (T + 4 + off) by ring.
+  pose proof (Hd 0%nat ltac:(cbn; lia)) as H0. cbn in H0. rewrite Z.add_0_r in H0. exact H0.
+Qed.
 End TableCtx.
 
 (* ------------------------------------------------------------------ typing of the add list against the schema *)
+Definition member_oty (mem : umember) : oty :=
+  match mem with UTable t => OTable t | UStruct size al => OStruct size al | UString => OString end.
+
 (* how the add list realises one schema field: the value the decoder must find (None: absent) *)
 Inductive field_built (n : nat) (Sc : schema) (st : est) (adds : list farg) (f : field) : option value -> Prop :=
 | FB_absent :
@@ -207,7 +220,15 @@ Inductive field_built (n : nat) (Sc : schema) (st : est) (adds : list farg) (f :
     valid n Sc st (lvl_align st) (OTable t) r v -> field_built n Sc st adds f (Some v)
 | FB_tabvec t r v :
     fk f = FTableVec t -> In (AOffset (fid f) r) adds -> e_start st <= r < 0 ->
-    valid n Sc st (lvl_align st) (OTabVec t) r v -> field_built n Sc st adds f (Some v).
+    valid n Sc st (lvl_align st) (OTabVec t) r v -> field_built n Sc st adds f (Some v)
+| FB_union u code r mem v :
+    fk f = FUnion u -> code <> 0 -> In (AInline (fid f - 1) 1 1 [code]) adds -> In (AOffset (fid f) r) adds ->
+    e_start st <= r < 0 -> union_member Sc u code = Some mem ->
+    valid n Sc st (lvl_align st) (member_oty mem) r v -> field_built n Sc st adds f (Some (VUnion code v))
+| FB_union_none u :
+    (* table_add_union with type NONE: only the type byte 0 is stored *)
+    fk f = FUnion u -> In (AInline (fid f - 1) 1 1 [0]) adds -> (forall a, In a adds -> farg_id a <> fid f) ->
+    frequired f = false -> field_built n Sc st adds f None.
 
 Inductive fields_built (n : nat) (Sc : schema) (st : est) (adds : list farg) : list field -> list (Z * value) -> Prop :=
 | FBS_nil : fields_built n Sc st adds [] []
@@ -249,13 +270,13 @@ Definition table_fits (adds : list farg) : Prop := snd (place adds 0) + 4 <= 655
 
 Lemma emit_front_small st b r e st' : emit_front st b = Some (r, e, st') -> small st' -> small st.
 Proof.
-  unfold emit_front. destruct (_ || _); [discriminate|]. intros H. injection H as _ _ <-.
+  unfold emit_front. destruct (_ || _ || _); [discriminate|]. intros H. injection H as _ _ <-.
   unfold small. cbn [set_emit_front front back]. rewrite lenZ_app. pose proof (lenZ_nonneg b). lia.
 Qed.
 
 Lemma emit_back_small st b r e st' : emit_back st b = Some (r, e, st') -> small st' -> small st.
 Proof.
-  unfold emit_back. destruct (_ <? _); [discriminate|]. intros H. injection H as _ _ <-.
+  unfold emit_back. destruct (_ || _); [discriminate|]. intros H. injection H as _ _ <-.
   unfold small. cbn [set_emit_back front back]. rewrite lenZ_app. pose proof (lenZ_nonneg b). lia.
 Qed.
 
@@ -410,7 +431,8 @@ Proof.
       intros a off Hin. apply Hno. apply (in_placed_adds adds placed Hmapf). eauto. }
     intros f ov Hf. unfold dec_field.
     inversion Hf as [Hno Hno1 Hreq | fsz fal bytes Hk Hin | r v Hk Hin Hr' Hv | es al mc r elems Hk Hin Hr' Hv Hmc
-                     | r v Hk Hin Hr' Hv | t' r v Hk Hin Hr' Hv | t' r v Hk Hin Hr' Hv]; subst ov.
+                     | r v Hk Hin Hr' Hv | t' r v Hk Hin Hr' Hv | t' r v Hk Hin Hr' Hv
+                     | u code r mem v Hk Hcode Hint Hin Hr' Hmem Hv | u Hk Hint Hno Hreq]; subst ov.
     - (* absent *)
       assert (Hdk : dec_kind (dec_table n Sc) Sc (vmem st2) o ds (vt_ref - 1 - o) (2 * (id_end_of placed 0 + 2)) (ref - o) (size + 4) (fid f) (fk f) = Some None).
       { revert Hno1. destruct (fk f); intros Hno1; cbn [dec_kind]; unfold with_off; rewrite ?(Habs (fid f) _ _ Hno); try reflexivity.
@@ -436,7 +458,27 @@ Proof.
       rewrite (Hwo (fid f) r _ v Hin Hr' Hv'). reflexivity.
     - rewrite Hk. cbn [dec_kind].
       pose proof (step_valid n Sc st st2 _ _ _ Hma Hstep Hv o ds Hord) as Hv'. cbn [obj_holds] in Hv'.
-      rewrite (Hwo (fid f) r _ v Hin Hr' Hv'). reflexivity. }
+      rewrite (Hwo (fid f) r _ v Hin Hr' Hv'). reflexivity.
+    - (* union with a member *)
+      rewrite Hk. cbn [dec_kind].
+      apply (in_placed_adds adds placed Hmapf) in Hint. destruct Hint as [offt Hint].
+      destruct (ctx_type_byte (vmem st2) o ds ref (vt_ref - 1) placed size base AL Halg HAL' Hvmem2 Hdata' Hbounds' Hwf' Hsize' Hie Hndp
+                  (fid f - 1) code offt Hint) as [Hfp Hbyte].
+      rewrite Hfp. cbn [bind]. rewrite Hbyte. cbn [bind].
+      destruct (Hoff (fid f) r Hin Hr') as (off & Hin' & Hlt).
+      pose proof (ctx_field_pos_present (vmem st2) o ds ref (vt_ref - 1) placed size base AL Halg HAL' Hvmem2 Hdata' Hbounds' Hwf' Hsize' Hie Hndp
+                    _ _ Hin') as Hvp. cbn [farg_id farg_size farg_align] in Hvp. rewrite Hvp. cbn [bind].
+      replace (code =? 0) with false by lia.
+      rewrite (ctx_follow (vmem st2) o ds ref (vt_ref - 1) placed size base AL Halg HAL' Hdata' Hbounds' Hwf' Hbase HT (fid f) r off Hin' Hlt). cbn [bind].
+      pose proof (step_valid n Sc st st2 _ _ _ Hma Hstep Hv o ds Hord) as Hv'.
+      unfold dec_member. rewrite Hmem. destruct mem; cbn [member_oty obj_holds] in Hv'; rewrite Hv'; reflexivity.
+    - (* union NONE with an explicit type byte 0 *)
+      rewrite Hk. cbn [dec_kind].
+      apply (in_placed_adds adds placed Hmapf) in Hint. destruct Hint as [offt Hint].
+      destruct (ctx_type_byte (vmem st2) o ds ref (vt_ref - 1) placed size base AL Halg HAL' Hvmem2 Hdata' Hbounds' Hwf' Hsize' Hie Hndp
+                  (fid f - 1) 0 offt Hint) as [Hfp Hbyte].
+      rewrite Hfp. cbn [bind]. rewrite Hbyte. cbn [bind]. rewrite (Habs (fid f) _ _ Hno). cbn [bind Z.eqb].
+      rewrite Hreq. reflexivity. }
   assert (Hdf : dec_fields (dec_table n Sc) Sc (vmem st2) o ds (vt_ref - 1 - o) (2 * (id_end_of placed 0 + 2)) (ref - o) (size + 4) flds = Some fs).
   { clear Hflds. induction Hfb as [|f r fs0 Hf Hr' IH|f r v fs0 Hf Hr' IH]; cbn [dec_fields].
     - reflexivity.
